@@ -386,6 +386,21 @@ def _key(ck, p, byk):
         hcalls = [o for o in roots if o[0] == "call" and method_of(o) == "hash_one"]
         ok = False
         detail = "no hash_one(..) in the key"
+        fin = [o for o in roots if o[0] == "call" and method_of(o) == "finish"]
+        if fin and not hcalls:
+            # hasher form: let mut h = build_hasher(); self.config.hash(&mut h); ..; h.finish()
+            fed = [(hb, ht) for hb, ht in f.calls() if (def_of(ht) or "").endswith("hash::Hash::hash") and "config" in arg_fields(pv, ht["args"][0]) and ("arg", 1) in flatten(pv.trace_operand(ht["args"][0]))]
+            same_hasher = False
+            from .c13 import _base_local
+            for o in fin:
+                hl = _base_local(f, pv, f.blocks[o[1]]["t"]["args"][0])
+                for hb, ht in fed:
+                    h2 = _base_local(f, pv, ht["args"][1])
+                    if hl is not None and hl == h2:
+                        same_hasher = True
+            if fed and same_hasher:
+                ok = True
+                detail = "key contains finish() of a hasher that self.config was hashed into"
         for o in hcalls:
             ht = f.blocks[o[1]]["t"]
             if "config" in arg_fields(pv, ht["args"][1]) and ("arg", 1) in flatten(pv.trace_operand(ht["args"][1])):
@@ -440,6 +455,7 @@ def _enabled_table(g):
     """is_rule_enabled evaluated for the four possible entries of the rule; None if the body is beyond the evaluator"""
     from ..interp import Interp, Stuck
     pv = Prov(g)
+    closures = {c.name: c for c in facts.load().closures_of(g.name)}
     some = lambda x: ("variant", "Option", 1, "Some", [x], 1)
     none = ("variant", "Option", 0, "None", [], 0)
     states = {"absent": none, "unset": some(none), "off": some(some(("bool", False))), "on": some(some(("bool", True)))}
@@ -460,6 +476,31 @@ def _enabled_table(g):
                     return a[0][4][0] if a[0][3] == "Some" else ("bool", False)
             if m in ("is_some", "is_none") and a and a[0][0] == "variant":
                 return ("bool", (a[0][3] == "Some") == (m == "is_some"))
+            if m in ("is_some_and", "map_or", "map_or_else", "is_none_or", "map", "and_then", "filter") and a and a[0][0] == "variant":
+                some_ = a[0][3] == "Some"
+                if not some_:
+                    if m == "is_some_and":
+                        return ("bool", False)
+                    if m == "is_none_or":
+                        return ("bool", True)
+                    if m == "map_or":
+                        return a[1]
+                    if m in ("map", "and_then", "filter"):
+                        return none
+                    raise Stuck("call to %s on None" % m)
+                cl = [x for x in pv.trace_operand(t["args"][-1]) if x[0] == "agg" and x[1] == "closure"]
+                c = closures.get(cl[0][2]) if len(cl) == 1 else None
+                if c is None:
+                    raise Stuck("closure of %s not found" % m)
+                r, _ = Interp(c, max_steps=200).run({2: a[0][4][0]}, hooks={"call": call})
+                if m in ("is_some_and", "is_none_or", "map_or"):
+                    return r
+                if m == "map":
+                    return some(r)
+                if m == "and_then":
+                    return r
+                if m == "filter":
+                    return a[0] if r == ("bool", True) else none
             if m in ("eq", "ne") and len(a) == 2 and a[0][0] == a[1][0] == "variant":
                 return ("bool", (a[0] == a[1]) == (m == "eq"))
             raise Stuck("call to %s" % m)
@@ -676,6 +717,22 @@ def _merge(ck, p, byk):
         swp = calls_to(f, "mem::swap")
         mrg = calls_to(f, "::merge_from")
         rpl = calls_to(f, "mem::replace")
+        if len(cur) == 1 and not swp and not rpl and len(mrg) == 1:
+            # let mut curated = new_curated(); curated.merge_from(self); *self = curated
+            (cb, ct), (mb, mt) = cur[0], mrg[0]
+            curated = ct["dest"][0]
+            recv = pv.mut_base.get(place_of(mt["args"][0])[0]) if place_of(mt["args"][0]) else None
+            other_self = ("arg", 1) in flatten(pv.trace_operand(mt["args"][1]))
+            stored = False
+            for bi2, b2 in enumerate(f.blocks):
+                for sx in b2["s"]:
+                    if sx["k"] == "assign" and sx["lhs"][:2] == [1, "*"] and len(sx["lhs"]) == 2 and sx["rv"]["k"] == "use" and place_of(sx["rv"]["op"]):
+                        src = place_of(sx["rv"]["op"])[0]
+                        if (src == curated or any(x["rv"]["k"] == "use" and place_of(x["rv"]["op"]) and place_of(x["rv"]["op"])[0] == curated for (_, _, k_, x) in pv.defs.get(src, []) if k_ == "assign")) and cfg.dominates(mb, bi2):
+                            stored = True
+            if recv == curated and other_self:
+                ck.decide(rule, "LintGroupConfig::fill_with_curated", stored, f.span, "curated = new_curated(); curated.merge_from(self); *self = curated (stored after the merge: %s)" % stored)
+                fs = None
         if len(cur) == 1 and not swp and len(rpl) == 1 and len(mrg) == 1:
             # let mut user = mem::replace(self, new_curated()); self.merge_from(&mut user)
             (cb, ct), (rb, rt), (mb, mt) = cur[0], rpl[0], mrg[0]
